@@ -11,7 +11,7 @@ from checks import hdlc_common as HC, p1_common as PC
 from spec import ref, ref_p1
 
 PROP = "C14"
-ENGINE_EXC = (PathAbort, EngineLimit, EngineFault)
+ENGINE_EXC = (PathAbort, EngineLimit, EngineFault) + core.HARNESS_SIDE
 
 
 def make_reader(name):
@@ -44,6 +44,7 @@ def run_reader(ctx, name, stream, cutsets, label, expect=None):
         w = {"mode": "reader", "reader": name, "chunks": chunks}
         if expect:
             w["expect"] = [SBytes(e) for e in expect]
+        ctx.intend(w, alts=lambda: (dict(w, chunks=HC.split(stream, c)) for c in cutsets))
         if ctx.witness is None:
             ctx.witness = w
         try:
@@ -150,8 +151,12 @@ P1_DATA = list(b"1-0:1.8.0(000123*kWh)\r\n")
 
 def p1_stream(eng, k):
     """the structured noise families of DESIGN §4 C14 (chosen by a harness-level pick)"""
-    kind = eng.pick(6)
+    kind = eng.pick(7)
     fr = [sym_octet(f"x{i}") for i in range(k)]
+    if kind == 6:
+        a = ref_p1.build_readout(b"/ADN9 6534", [b"1-0:1.7.0(0001.727*kW)"])
+        b = ref_p1.build_readout(b"/LGF5E360", [b"1-0:32.7.0(233.9*V)"], checksum=False)
+        return list(a) + fr + list(b), "complete readout + free octets + complete readout (noise glued to the next identification line)"
     if kind == 0:
         return fr + [sym_octet("x_extra")], "free octets"
     if kind == 1:
@@ -233,8 +238,8 @@ def scenarios(tier):
                             bounds={"frame": "valid header announcing 2047 | 16 | 2046 octets, concrete filler", "free_octets": f"{ko} (frame octets {2047 - ko // 2 + 1}..{2047 - ko // 2 + ko}; any value, flags and escapes included)", "then": "two flags and a small valid frame",
                                     "splittings": "one call, cut before/after the free octets"}, domains=("hdlc",), frontier=4, workers=4, assumptions=A, replay_cap=20))
     k = 3 if q else 4
-    out.append(Scenario(f"p1 reader + readout accessors: six noise families, {k} free octets", p1_reader_path(k, False),
-                        bounds={"families": "free | '/'+free+LF | ident+free+LF | ident+data+'!'+free+LF | '!' inside ident line | free in data and after '!'", "free_octets": k, "splittings": "every single cut"},
+    out.append(Scenario(f"p1 reader + readout accessors: seven noise families, {k} free octets", p1_reader_path(k, False),
+                        bounds={"families": "free | '/'+free+LF | ident+free+LF | ident+data+'!'+free+LF | '!' inside ident line | free in data and after '!' | readout+free+readout", "free_octets": k, "splittings": "every single cut"},
                         domains=("p1",), frontier=6, assumptions=A, replay_cap=60))
     for n in ((8300,) if q else (7900, 8191, 8300, 20000)):
         out.append(Scenario(f"p1 reader: unfinished readout of ~{n} octets across the buffer guard, then 2 free octets + clean readouts", p1_overflow_path(n, 2),
